@@ -154,7 +154,11 @@ class World:
         self.abstract_facts = {}
         hier = extract.exception_hierarchy(self.src)
         for name, bases in hier.items():
-            self.cids.add(name, bases)
+            if name not in self.cids.ALIASES:
+                self.cids.add(name, bases)
+        for name, bases in hier.items():
+            if name in self.cids.ALIASES:
+                self.cids.add(name, bases)
         for name in sorted(BUILTIN_TYPE_NAMES):
             self.cids.add(name, ['int'] if name == 'bool' else [])
         for cf in contract_files:
@@ -419,12 +423,18 @@ class World:
             return SV(const(False))      # assumption A2
         if full in ('base64.b64decode', 'base64.b64encode'):
             return PV('builtin', name)
+        if full in self.contracts and self.contracts[full].get('file') is None and full in MODULE_FUNCS \
+                and not MODULE_FUNCS[full].startswith('contract:'):
+            # the sidecar file states its own contract for this external function
+            return PV('abstract', {'contract': full, 'bound': {}})
         if full in MODULE_FUNCS:
             if MODULE_FUNCS[full].startswith('contract:'):
                 return PV('abstract', {'contract': MODULE_FUNCS[full][9:], 'bound': {}})
             return PV('builtin', MODULE_FUNCS[full])
         if full in MODULE_CLASSES:
             return PV('class', MODULE_CLASSES[full])
+        if full in self.cids.ids:
+            return PV('class', full)      # an exception class of the standard library known to the hierarchy
         if full in self.contracts and self.contracts[full].get('file') is None:
             # an external function under an assumed contract of the sidecar file (listed as trusted)
             return PV('abstract', {'contract': full, 'bound': {}})
